@@ -52,6 +52,10 @@ where
 
         self.verify_rumor_author(&rumor.pubkey, sender_credential)?;
 
+        // Never trust an `id` carried inside the decrypted JSON: the message is stored under the NIP-01
+        // hash of its own fields, so a member cannot overwrite another author's stored message by
+        // pre-setting the id of that message.
+        rumor.id = None;
         let rumor_id: EventId = rumor.id();
 
         let processed_message = super::create_processed_message_record(
